@@ -95,3 +95,16 @@ def same_plain(a, b):
     if isinstance(a, float) and isinstance(b, float):
         return a == b or (a != a and b != b)
     return a == b and type(a) == type(b)
+
+
+def same_num(a, b):
+    """Like same_plain, but numbers are compared by value (an int, a bool and a float of the same value are the
+    same datum): for comparing what two executions return, not for the before/after comparison of caller data."""
+    if isinstance(a, dict):
+        return isinstance(b, dict) and set(a) == set(b) and all(same_num(a[k], b[k]) for k in a)
+    if isinstance(a, (list, tuple)):
+        return isinstance(b, (list, tuple)) and len(a) == len(b) and all(same_num(x, y) for x, y in zip(a, b))
+    import numbers
+    if isinstance(a, numbers.Number) and isinstance(b, numbers.Number):
+        return a == b or (a != a and b != b)
+    return a == b and type(a) == type(b)
